@@ -112,7 +112,7 @@ func verifC01CheckResult(result VoteResult, key string, quorum, threshold uint, 
 // VerifC01FindVoteResult: every vote list of up to V votes over up to K facts
 // (up to renaming of facts), every map iteration order, symbolic quorum and threshold.
 func VerifC01FindVoteResult() {
-	votes, cnt := verifC01Votes(verifrt.Bound("votes", 5, 7), verifrt.Bound("facts", 3, 4))
+	votes, cnt := verifC01Votes(verifrt.Bound("votes", 5, 6), verifrt.Bound("facts", 3, 3))
 	quorum := uint(verifrt.NondetU32("quorum"))
 	threshold := uint(verifrt.NondetU32("threshold"))
 	verifrt.Assume(quorum >= 1)
